@@ -216,6 +216,11 @@ def main(argv=None):
         json.dump(ev, f, indent=1, default=str)
     print(f"{cid} {tier}: {evals} executions, {len(sigs)} distinct non-trivial, {len(real)} violations, "
           f"{sum(n for _, n in known.values())} known-finding hits, {wall:.1f}s")
+    kf_clauses = {c for f in findings for c in f.get("clauses", ())}
+    for k, n in sorted(sit.items()):
+        if k.startswith("_foreign_clause.") and k[len("_foreign_clause."):] not in kf_clauses:
+            # not this property's business and not a verdict here, but worth a line: the clause's own check decides it
+            print(f"NOTE {cid}: {n} execution(s) raised {k[len('_foreign_clause.'):]}, a clause of another property (decided by that property's check)")
     if real:
         for ln in lines:
             print(ln)
